@@ -9,6 +9,7 @@ import (
 	"strconv"
 	"strings"
 	"testing"
+	"time"
 
 	corev1 "k8s.io/api/core/v1"
 	"k8s.io/apimachinery/pkg/api/resource"
@@ -17,8 +18,10 @@ import (
 	"k8s.io/kubernetes/pkg/scheduler/framework"
 
 	"github.com/koordinator-sh/koordinator/apis/extension"
+	schedulingv1alpha1 "github.com/koordinator-sh/koordinator/apis/scheduling/v1alpha1"
 	schedulingconfig "github.com/koordinator-sh/koordinator/pkg/scheduler/apis/config"
 	"github.com/koordinator-sh/koordinator/pkg/util/cpuset"
+	reservationutil "github.com/koordinator-sh/koordinator/pkg/util/reservation"
 )
 
 // C19 harness (NUMA part).  One case = one allocation history on one node:
@@ -225,6 +228,17 @@ func c19OnlyMixedMarks(a, b []string, mixed map[int]bool) bool {
 	return true
 }
 
+func c19Union(a, b map[int]bool) map[int]bool {
+	out := map[int]bool{}
+	for k := range a {
+		out[k] = true
+	}
+	for k := range b {
+		out[k] = true
+	}
+	return out
+}
+
 func c19SameLines(a, b []string) bool {
 	if len(a) != len(b) {
 		return false
@@ -239,6 +253,8 @@ func c19SameLines(a, b []string) bool {
 
 type c19Obj struct {
 	pod   *corev1.Pod // as the API server holds it
+	resv  *schedulingv1alpha1.Reservation // non-nil: the object is a Reservation (its reserve pod holds the allocation)
+	prev  *schedulingv1alpha1.Reservation // the active version before it terminated
 	alloc *c19Alloc   // what the scheduler allocated (nil for hand-made objects)
 	term  bool
 }
@@ -290,6 +306,7 @@ func TestVerifC19Numa(t *testing.T) {
 		nextUID := 1
 		mixedExclShare := false // two holders of one CPU disagree on the exclusive policy
 		mixedCPUs := map[int]bool{} // CPUs that were at some point held concurrently under different policies
+		shadowCPUs := map[int]bool{} // CPUs ever held by a Reservation whose exclusive policy sits on spec.template
 		refs := func() map[int]int {
 			m := map[int]int{}
 			for _, o := range objs {
@@ -321,6 +338,24 @@ func TestVerifC19Numa(t *testing.T) {
 			o := objs[uid]
 			h.Op("numa ev %d %d %d", cache, kind, uid)
 			if h.Guard(func() {
+				if o.resv != nil {
+					// Reservations reach the same handler through the reservation informer's adapter
+					rh := reservationutil.NewReservationToPodEventHandler(eh, reservationutil.IsObjValidActiveReservation)
+					switch kind {
+					case 0:
+						rh.OnAdd(o.resv.DeepCopy(), false)
+					case 1:
+						old := o.resv
+						if o.prev != nil && cache == 0 {
+							old = o.prev // the live scheduler saw the active version before
+							o.prev = nil
+						}
+						rh.OnUpdate(old.DeepCopy(), o.resv.DeepCopy())
+					case 2:
+						rh.OnDelete(o.resv.DeepCopy())
+					}
+					return
+				}
 				switch kind {
 				case 0:
 					eh.OnAdd(o.pod.DeepCopy(), false)
@@ -455,13 +490,51 @@ func TestVerifC19Numa(t *testing.T) {
 				}
 				cs := framework.NewCycleState()
 				cs.Write(stateKey, state)
-				h.Op("numa bind %d %d %d %s", a.uid, a.excl, len(a.cpus), c19Join(vIntsI(a.cpus), strconv.Itoa(len(a.numa)), c19NumaTok(a.numa)))
+				kind := 0
+				if r.Chance(1, 4) {
+					kind = 1 + r.Intn(2)
+				}
+				h.Op("numa bind %d %d %d %d %s", a.uid, kind, a.excl, len(a.cpus), c19Join(vIntsI(a.cpus), strconv.Itoa(len(a.numa)), c19NumaTok(a.numa)))
 				ok := true
+				var resv *schedulingv1alpha1.Reservation
+				if kind != 0 {
+					// the allocation is made for a Reservation: scheduled as its reserve pod, persisted on the Reservation
+					resv = &schedulingv1alpha1.Reservation{
+						ObjectMeta: metav1.ObjectMeta{Name: fmt.Sprintf("r%d", a.uid), UID: pod.UID},
+						Spec: schedulingv1alpha1.ReservationSpec{
+							Template: &corev1.PodTemplateSpec{ObjectMeta: metav1.ObjectMeta{Namespace: "default", Annotations: map[string]string{}}},
+							Owners:   []schedulingv1alpha1.ReservationOwner{{Object: &corev1.ObjectReference{Name: "owner"}}},
+							TTL:      &metav1.Duration{Duration: time.Hour},
+						},
+					}
+					specWhere := 2 - kind // 0: the user put the resource spec on spec.template, 1: on the Reservation itself
+					spec := &extension.ResourceSpec{PreferredCPUBindPolicy: extension.CPUBindPolicyFullPCPUs,
+						PreferredCPUExclusivePolicy: extension.CPUExclusivePolicy(c19ExclNames[a.excl])}
+					if specWhere == 0 {
+						_ = extension.SetResourceSpec(&resv.Spec.Template.ObjectMeta, spec)
+					} else {
+						_ = extension.SetResourceSpec(resv, spec)
+					}
+					h.Tag(fmt.Sprintf("bind:reservation-spec-on-%d", specWhere))
+					if kind == 2 && a.excl != 0 {
+						for _, c := range a.cpus {
+							shadowCPUs[c] = true
+						}
+					}
+				}
 				if h.Guard(func() {
-					if st := plg.Reserve(context.TODO(), cs, pod, c19NodeName); !st.IsSuccess() {
+					target := pod
+					if resv != nil {
+						target = reservationutil.NewReservePod(resv)
+					}
+					if st := plg.Reserve(context.TODO(), cs, target, c19NodeName); !st.IsSuccess() {
 						ok = false
 					}
-					if st := plg.PreBind(context.TODO(), cs, pod, c19NodeName); !st.IsSuccess() {
+					if resv != nil {
+						if st := plg.PreBindReservation(context.TODO(), cs, resv, c19NodeName); !st.IsSuccess() {
+							ok = false
+						}
+					} else if st := plg.PreBind(context.TODO(), cs, pod, c19NodeName); !st.IsSuccess() {
 						ok = false
 					}
 				}) || !ok {
@@ -469,7 +542,13 @@ func TestVerifC19Numa(t *testing.T) {
 					h.Fail("C19:numa-persist-failed", "Reserve/PreBind failed for %+v", *a)
 				}
 				pod.Spec.NodeName = c19NodeName // the bind itself
-				rs, gerr := extension.GetResourceStatus(pod.Annotations)
+				annots := pod.Annotations
+				if resv != nil {
+					resv.Status.NodeName = c19NodeName
+					resv.Status.Phase = schedulingv1alpha1.ReservationAvailable
+					annots = resv.Annotations
+				}
+				rs, gerr := extension.GetResourceStatus(annots)
 				text := ""
 				if gerr == nil && rs != nil {
 					text = rs.CPUSet
@@ -499,6 +578,9 @@ func TestVerifC19Numa(t *testing.T) {
 					}
 				}
 				objs[a.uid] = &c19Obj{pod: pod.DeepCopy(), alloc: a}
+				if resv != nil {
+					objs[a.uid].resv = resv.DeepCopy()
+				}
 				h.Tag(fmt.Sprintf("bind:cpus<=%d", 1<<uint(c19Lg(len(a.cpus)))))
 				h.Tag(fmt.Sprintf("bind:numa=%d", len(a.numa)))
 			case k < 13: // ---- delete
@@ -514,6 +596,13 @@ func TestVerifC19Numa(t *testing.T) {
 				o.pod.Status.Phase = corev1.PodSucceeded
 				if r.Bool() {
 					o.pod.Status.Phase = corev1.PodFailed
+				}
+				if o.resv != nil && o.prev == nil && reservationutil.IsReservationActive(o.resv) {
+					o.prev = o.resv.DeepCopy()
+					o.resv.Status.Phase = schedulingv1alpha1.ReservationSucceeded
+					if o.pod.Status.Phase == corev1.PodFailed {
+						o.resv.Status.Phase = schedulingv1alpha1.ReservationFailed
+					}
 				}
 				h.Op("numa setterm %d", u)
 				deliver(liveH, 0, 1, u)
@@ -662,7 +751,9 @@ func TestVerifC19Numa(t *testing.T) {
 			}
 			// ---- oracle 2: rebuilt state identical to the live state
 			if !c19SameLines(got, live) {
-				if c19OnlyMixedMarks(got, live, mixedCPUs) {
+				if c19OnlyMixedMarks(got, live, shadowCPUs) {
+					h.Fail("C19:numa-reservation-excl-shadowed", "rebuilt ledger differs from the live one only in the exclusive-policy marker of CPUs held by a Reservation whose resource spec sits on spec.template (PreBind wrote a spec without it onto the Reservation): live=%v rebuilt=%v", live, got)
+				} else if c19OnlyMixedMarks(got, live, c19Union(mixedCPUs, shadowCPUs)) {
 					h.Fail("C19:numa-excl-mark-last-writer", "rebuilt ledger differs from the live one only in the exclusive-policy marker of a CPU held by pods with different policies: live=%v rebuilt=%v", live, got)
 				} else {
 					h.Fail("C19:numa-rebuilt-differs", "live=%v rebuilt=%v", live, got)
@@ -672,7 +763,7 @@ func TestVerifC19Numa(t *testing.T) {
 			if round == 0 {
 				first = got
 			} else if !c19SameLines(got, first) {
-				if c19OnlyMixedMarks(got, first, mixedCPUs) {
+				if c19OnlyMixedMarks(got, first, c19Union(mixedCPUs, shadowCPUs)) {
 					h.Fail("C19:numa-excl-mark-last-writer", "two delivery orders differ only in the exclusive-policy marker of a shared CPU: %v vs %v", first, got)
 				} else {
 					h.Fail("C19:numa-order-dependent", "two delivery orders rebuild different ledgers: %v vs %v", first, got)
@@ -693,7 +784,7 @@ func TestVerifC19Numa(t *testing.T) {
 		}
 		h.End()
 	}
-	h.Close("history of bind (real Reserve+PreBind) / delete / terminate / same-allocation update / duplicate add / hand-made objects on a 1-16 CPU topology (maxRef 1-3, CPU reuse as for reservation owners, NUMA amounts incl. zero and absent keys), cut anywhere, then two shuffled replays with duplicates into fresh caches. Non-trivial = >= 2 surviving allocations")
+	h.Close("history of bind (real Reserve+PreBind on a pod, or Reserve(NewReservePod)+PreBindReservation on a Reservation with its resource spec on the template or on itself) / delete / terminate / same-allocation update / duplicate add / hand-made objects on a 1-16 CPU topology (maxRef 1-3, CPU reuse as for reservation owners, NUMA amounts incl. zero and absent keys), cut anywhere, then two shuffled replays with duplicates into fresh caches. Non-trivial = >= 2 surviving allocations")
 }
 
 func c19Lg(n int) int {
